@@ -39,6 +39,15 @@ def recsOut (rs : List Bytes) : String :=
 def readOut (recs : List Bytes) (e : ReadEnd) (head : Nat) (files : List Bytes) : String :=
   s!"ok end={endName e} n={recs.length} recs={recsOut recs} {sizes head files} {diskSum files}"
 
+def effName : FsEffect → String
+  | .remove i => s!"r{i}"
+  | .truncate i _ => s!"w{i}"
+  | .write i => s!"w{i}"
+  | .create i => s!"c{i}"
+
+def effsOut (es : List FsEffect) : String :=
+  if es.isEmpty then "." else joinWith "," (es.map effName)
+
 def pokeFile (f : Bytes) (off : Nat) (x : Nat) : Bytes :=
   f.take off ++ (match f.drop off with
     | [] => []
@@ -82,6 +91,26 @@ def step (s : Phase) (toks : List String) : Phase × String :=
     match recover crc32c d with
     | none => (s, "err")
     | some (recs, e, d') => (.closed d', readOut recs e d'.head d'.files)
+  | ["recoverc", js], .closed d =>
+    match js.toNat? with
+    | some j =>
+      if j ≥ 2 ^ 31 then (s, "bad-op")
+      else if d.files.isEmpty then (s, "err")
+      else
+        let r := readAll crc32c d.files.flatten
+        let effs := match r.2.2 with
+          | .eof => []
+          | _ => repairEffects d.head r.2.1 d.files
+        let d' := recoverPartial crc32c j d
+        (.closed d', s!"ok end={endName r.2.2} n={r.1.length} eff={effsOut effs} {sizes d'.head d'.files} {diskSum d'.files}")
+    | none => (s, "bad-op")
+  | ["crashshift", js, ks], .opened w =>
+    match js.toNat?, ks.toNat? with
+    | some j, some k =>
+      if j ≥ 2 ^ 31 ∨ k ≥ 2 ^ 63 then (s, "bad-op") else
+      let d := w.crashInShift j k
+      (.closed d, s!"ok eff={effsOut (shiftEffects w)} {sizes d.head d.files} {diskSum d.files}")
+    | _, _ => (s, "bad-op")
   | ["read"], .closed d =>
     if d.files.isEmpty then (s, "err")
     else let r := readAll crc32c d.files.flatten; (s, readOut r.1 r.2.2 d.head d.files)
